@@ -192,3 +192,17 @@ Fixpoint psize (p : prog action) : nat :=
   | Step _ a b => S (psize a + psize b)
   | If _ a b c => S (psize a + psize b + psize c)
   end.
+
+(* as [check_method], for tables whose field sets also contain accesses made through local aliases of fields
+   ([extra]: the fields the translator reports as reached only through aliases in this method): everything the
+   bytecode names is in the table, and the table has nothing beyond bytecode + aliases *)
+Definition check_method2 (tbl : list method) (name : string) (touched extra stores calls : list string) : bool :=
+  match find_method tbl name with
+  | None => false
+  | Some body =>
+      negb (has_opaque body) &&
+      subset touched (reads_of body ++ writes_of body) &&
+      subset (reads_of body ++ writes_of body) (touched ++ extra) &&
+      subset stores (writes_of body) &&
+      seteq (calls_of body) calls
+  end.
